@@ -415,26 +415,6 @@ Section Repl.
 
   Definition var_okb (st : store) (w : ws) : bool := var_wfb st w && time_okb w.
 
-  (** C10's finding F1 (decoded-second-rounded-up): GetTimeFromTicks rounds the seconds to 8 decimals but keeps
-      the sub-second part; ticks whose exact position ticks * interval / 2^32 has a sub-second part of at least
-      0.99999999 s decode about one second late.  The replica re-encodes the decoded time, so the rounding can
-      bite on the master's ticks or on the re-encoded ones. *)
-  Definition f1_at (ipd ticks : Z) : bool :=
-    if ipd =? 0 then false else 999999990 <=? (ticks * (86400000000000 / ipd) / 4294967296) mod 1000000000.
-
-  Definition f1_exposed (w : ws) : bool :=
-    (ws_rt w =? RT_VARIABLE) &&
-    let t0 := IndexToTime z (ws_idx w) (ws_tf w) (ws_year w) in
-    let ipd := ipd_of (ws_tf w) in
-    existsb (fun rec =>
-               let t := rec_time (sec_of t0) ipd rec in
-               f1_at ipd (rec_ticks rec) ||
-               match TimeToIndex z t (ws_tf w) with
-               | Ok i => f1_at ipd (get_ticks t i ipd)
-               | _ => true
-               end)
-            (chunks (length (ws_payload w)) (Z.to_nat (ws_vrl w)) (ws_payload w)).
-
   (** what the replica makes of one VARIABLE record: the columns, and the ticks RE-ENCODED from the time the
       master's ticks decode to *)
   Definition retick_rec (epoch ipd idx ipd_b : Z) (rec : list byte) : list byte :=
